@@ -640,6 +640,10 @@ impl World {
             let len = self.facts.len();
             self.facts.merge(new_facts);
             if self.facts.len() == len {
+                // the fact budget also covers facts that were loaded rather than derived
+                if self.facts.len() > limits.max_facts as usize {
+                    break Err(Execution::RunLimit(crate::error::RunLimit::TooManyFacts));
+                }
                 break Ok(());
             }
 
